@@ -7,7 +7,9 @@ writes evidence_ext/EXT.json.  (Extensions that fall under a listed property's s
 Graph.tla in C11, Binned.tla in C10.)
 
   Signature.tla   mutation types of single-base substitutions in their sequence context (variants/mutation_signature.py)
+  Annotation.tla  gene / transcript / exon tables and their ids from GTF and GFF3 attribute text (datatypes/gtf.py)
 """
+import os
 import json
 
 import numpy as np
@@ -54,6 +56,45 @@ def check_signature(v):
     return {"n": 1 if snps else 0, "nt": [json.dumps(["sig", v["refs"], snps])] if len(snps) > 1 else [], "bad": bad}
 
 
+KEYS = {1: "gene_id", 2: "transcript_id", 3: "exon_id", 4: "gene_name", 5: "ref_gene_id"}
+VALS = {1: "g1", 2: "T22x", 4: "a b", 5: "x"}
+
+
+def check_annotation(v):
+    """One state of spec/Annotation.tla as a GTF and as a GFF3 file: get_genes / get_transcripts / get_exons."""
+    import bionumpy as bnp
+    entries = v["entries"]
+    d = os.path.join(v["_dir"], "ann_%d_%d" % (os.getpid(), v["_id"]))
+    os.makedirs(d, exist_ok=True)
+    bad, n = [], 0
+    for style in ("gtf", "gff"):
+        lines = []
+        for i, e in enumerate(entries):
+            pairs = [(KEYS[k], VALS[val].replace(" ", "_") if style == "gff" else VALS[val]) for k, val in e["attrs"]]
+            attr = " ".join('%s "%s";' % kv for kv in pairs) if style == "gtf" else ";".join("%s=%s" % kv for kv in pairs)
+            lines.append("\t".join(["chr1", "src", e["ft"], str(10 * (i + 1)), str(10 * (i + 1) + 5), ".", "+", ".", attr]))
+        path = os.path.join(d, "a." + style)
+        with open(path, "w") as f:
+            f.write("".join(l + "\n" for l in lines))
+        for what, meth, keys in (("genes", "get_genes", ["gene_id"]), ("transcripts", "get_transcripts", ["transcript_id", "gene_id"]),
+                                 ("exons", "get_exons", ["transcript_id", "gene_id", "exon_id"])):
+            want = [[10 * r["row"]] + [(VALS[x].replace(" ", "_") if style == "gff" else VALS[x]) for x in r["ids"]] for r in v[what]]
+
+            def run_():
+                t = getattr(bnp.open(path).read(), meth)()
+                cols = [[int(x) for x in t.start.tolist()]] + [[str(x) for x in getattr(t, k).tolist()] for k in keys]
+                return [list(r) for r in zip(*cols)] if len(t) else []
+            o = outcome(run_)
+            n += 1
+            if o != ("ok", want):
+                bad.append({"what": "%s() of %s entries differs from the entries of that type with their own ids" % (meth, style.upper()),
+                            "tags": {"spec": "Annotation", "op": meth, "style": style, "kind": "raises" if o[0] == "err" else "values"},
+                            "vector": {k: v[k] for k in v if not k.startswith("_")}, "expected": want, "observed": o})
+    import shutil
+    shutil.rmtree(d, ignore_errors=True)
+    return {"n": n, "nt": [json.dumps(["ann", entries])] if len(entries) > 1 else [], "bad": bad}
+
+
 def run(ctx):
     quick = ctx.tier == "quick"
     first = None
@@ -66,8 +107,17 @@ def run(ctx):
             first = res.vectors[5]
             ctx.sample(first)
         ctx.absorb(core.pmap(check_signature, res.vectors, chunk=50))
+    res = ctx.tlc("MC_Annotation", tag="MC_Annotation", spec="Spec", workers=4, constants={"MaxEntries": 2 if quick else 3},
+                  invariants=["WellDefined", "Aligned", "Emit"], coverage=True)
+    ctx.require_actions(res, "MC_Annotation", ["Add"])
+    for i, v in enumerate(res.vectors):
+        v["_id"] = i
+        v["_dir"] = ctx.work
+    ctx.sample({k: res.vectors[9][k] for k in ("entries", "genes")})
+    ctx.absorb(core.pmap(check_annotation, res.vectors, chunk=40))
     ctx.exhaustive = True
     return ctx.finish(RULE, assumptions=[
+        "Annotation: entries carry the ids their feature type requires (well-formed GTF/GFF3); values with a space only in GTF (quoted)",
         "not evidence for any listed property: specification growth (DESIGN.md section 18)",
         "Signature: substitutions at interior positions (a full context exists), listed in genome order; contexts holding N are not counted",
     ])
@@ -76,7 +126,12 @@ def run(ctx):
 def replay(d):
     print("replay of EXT case:", d.get("what"), d.get("tags"))
     v = (d.get("vectors") or [d.get("vector")])[0]
-    r = check_signature(v)
+    if d["tags"].get("spec") == "Annotation":
+        w = os.path.join(core.VERIF, ".work", "replay")
+        os.makedirs(w, exist_ok=True)
+        r = check_annotation(dict(v, _id=0, _dir=w))
+    else:
+        r = check_signature(v)
     for b in r["bad"]:
         print("  disagrees:", b["what"], "expected", b["expected"], "observed", b["observed"])
     if not r["bad"]:
